@@ -828,3 +828,24 @@ Proof.
   exists ["10.0.0.1:80"; "10.0.0.1:80"; "10.0.0.2:80"], ["10.0.0.1:80"; "10.0.0.2:80"; "10.0.0.1:80"].
   split; [constructor; apply perm_swap|]. vm_compute. discriminate.
 Qed.
+
+(* ---- internal/k8s/configuration.go *)
+Theorem site_sorted_keys_deterministic {V} (l1 l2 : list (string * V)) :
+  Permutation l1 l2 -> site_sorted_keys_out l1 = site_sorted_keys_out l2.
+Proof. intros P. apply site_endpoints_sorted_deterministic. apply Permutation_map. exact P. Qed.
+
+Theorem site_sorted_keys_by_deterministic {V} (render : string -> string) (l1 l2 : list (string * V)) :
+  Permutation l1 l2 -> NoDup (map render (map fst l1)) ->
+  site_sorted_keys_by_out render l1 = site_sorted_keys_by_out render l2.
+Proof.
+  intros P ND. unfold site_sorted_keys_by_out.
+  apply sort_perm_invariant_NoDup; [apply Permutation_map; exact P|exact ND].
+Qed.
+
+Theorem site_elect_deterministic {V} (rank : string * V -> string) (l1 l2 : list (string * V)) :
+  Permutation l1 l2 -> NoDup (map rank l1) -> site_elect_out rank l1 = site_elect_out rank l2.
+Proof. intros P ND. unfold site_elect_out. rewrite (sort_perm_invariant_NoDup rank l1 l2 P ND). reflexivity. Qed.
+
+Theorem site_exists_deterministic {V} (p : string * V -> bool) (l1 l2 : list (string * V)) :
+  Permutation l1 l2 -> site_exists_out p l1 = site_exists_out p l2.
+Proof. apply existsb_perm. Qed.
